@@ -142,7 +142,13 @@ def run_one(ch, cfg):
                       if f in e and e.get("type") != "x509_pem"]
             if fields:
                 f = fields[ch.draw(len(fields), "stored.field")]
-                e[f] = flip(bytes.fromhex(e[f]), ch, "stored").hex()
+                if f == "signature" and platform == "ledger" and ch.draw(2, "stored.malleate") == 1:
+                    # the well-known tolerant re-readings of a DER signature (tag 0x31, high S, padded
+                    # integers, trailing bytes, long-form lengths)
+                    from checks.c06 import malleate_signature
+                    e[f] = malleate_signature(bytes.fromhex(e[f]), ch, "stored")[0].hex()
+                else:
+                    e[f] = flip(bytes.fromhex(e[f]), ch, "stored").hex()
                 site = "stored:%s.%s" % (e["name"], f)
             else:
                 import base64
